@@ -6,6 +6,7 @@ import (
 	"fmt"
 	"sort"
 	"strings"
+	"time"
 
 	"verif/engine/vsched"
 	"verif/engine/vtime"
@@ -218,6 +219,11 @@ func meTuples(n, k int) [][]int {
 // have stopped it. Both are legitimate serialisations of the overlap, so the
 // reference set holds the sequential orders with and without the stop.
 func runMEPairs(c *vsched.RunCtx, race bool) {
+	// at most 40% of the time left to the check (see harness/grpcgcp/pairs.go)
+	deadline := c.Deadline
+	if !deadline.IsZero() && !race {
+		deadline = time.Now().Add(time.Until(c.Deadline) * 2 / 5)
+	}
 	pre := 2
 	if c.Thorough() {
 		pre = 3
@@ -312,10 +318,10 @@ func runMEPairs(c *vsched.RunCtx, race bool) {
 			}
 			// race detection always on; in a property check the racy accesses become scheduling points of
 			// a second exploration (see harness/grpcgcp/pairs.go)
-			res := vsched.Explore(vsched.ExploreOpts{Name: "me-pairs", Config: cfgName, PreemptBound: pre, DevBound: 1, Race: true, Deadline: c.Deadline}, body)
+			res := vsched.Explore(vsched.ExploreOpts{Name: "me-pairs", Config: cfgName, PreemptBound: pre, DevBound: 1, Race: true, Deadline: deadline}, body)
 			c.Add(res)
 			if !race && len(res.RaceSites) > 0 {
-				res2 := vsched.Explore(vsched.ExploreOpts{Name: "me-pairs+racy", Config: cfgName, PreemptBound: 2, DevBound: 1, Race: true, YieldSites: res.RaceSites, Deadline: c.Deadline}, body)
+				res2 := vsched.Explore(vsched.ExploreOpts{Name: "me-pairs+racy", Config: cfgName, PreemptBound: 2, DevBound: 1, Race: true, YieldSites: res.RaceSites, Deadline: deadline}, body)
 				c.Add(res2)
 			}
 		}
